@@ -1171,7 +1171,7 @@ def _thread_flags(fn, body_list):
       if not stmts:
         return False
       last = stmts[-1]
-      if isinstance(last, (ast.Raise, ast.Return, ast.Continue, ast.Break)):
+      if isinstance(last, (ast.Raise, ast.Return, ast.Continue, ast.Break)) or _is_noreturn_call(last):
         return not any(_stores(x, t) for x in stmts)
       if isinstance(last, ast.Assign) and len(last.targets) == 1 and isinstance(last.targets[0], ast.Name) and last.targets[0].id == t \
           and isinstance(last.value, ast.Constant) and isinstance(last.value.value, bool):
@@ -1253,7 +1253,7 @@ def _thread_value(fn, body_list):
       if not stmts:
         return False
       last = stmts[-1]
-      if isinstance(last, (ast.Raise, ast.Return, ast.Continue, ast.Break)):
+      if isinstance(last, (ast.Raise, ast.Return, ast.Continue, ast.Break)) or _is_noreturn_call(last):
         return not any(_stores(x, k) for x in stmts)
       if isinstance(last, ast.Assign) and len(last.targets) == 1 and isinstance(last.targets[0], ast.Name) and last.targets[0].id == k:
         if any(_stores(x, k) for x in stmts[:-1]) or outcome(last.value) is None:
@@ -3718,6 +3718,62 @@ def fuse_accumulators(tree, modname, table=None):
   return count
 
 
+def class_attrs(tree):
+  """Class name -> sorted attribute names stored through the first parameter of its methods (self.X = ..., self.X: T = ...)."""
+  out = {}
+  for st in tree.body:
+    if isinstance(st, ast.ClassDef):
+      names = set()
+      for m in st.body:
+        if isinstance(m, ast.FunctionDef) and m.args.args:
+          selfn = m.args.args[0].arg
+          for n in ast.walk(m):
+            if isinstance(n, ast.Attribute) and isinstance(n.ctx, ast.Store) and isinstance(n.value, ast.Name) and n.value.id == selfn:
+              names.add(n.attr)
+      if names:
+        out[st.name] = sorted(names)
+  return out
+
+
+def restore_attribute_names(tree, modname):
+  """A class that stores exactly one attribute the reference class does not have, and lacks exactly one the reference class
+  stores, renamed it: the attribute gets its reference name back everywhere in the module (the new name must not be used by
+  the reference tree for anything else)."""
+  p = os.path.join(os.path.dirname(os.path.abspath(__file__)), 'canon_attrs.json')
+  try:
+    with open(p) as f:
+      ref = json.load(f).get(modname) or {}
+  except (OSError, ValueError):
+    return 0
+  vocab = _load_vocab() or set()
+  count = 0
+  for _round in range(16):
+    cur = class_attrs(tree)
+    done = False
+    for cname, rattrs in sorted(ref.items()):
+      cattrs = cur.get(cname)
+      if not cattrs:
+        continue
+      missing = sorted(set(rattrs) - set(cattrs))
+      new = sorted(set(cattrs) - set(rattrs))
+      if len(missing) != 1 or len(new) != 1 or new[0] in vocab:
+        continue
+      old_name, new_name = missing[0], new[0]
+      if any(isinstance(n, ast.Attribute) and n.attr == old_name for n in ast.walk(tree)):
+        continue
+      for n in ast.walk(tree):
+        if isinstance(n, ast.Attribute) and n.attr == new_name:
+          n.attr = old_name
+        elif isinstance(n, ast.Constant) and n.value == new_name:
+          n.value = old_name      # getattr(self, 'name') / hasattr / __slots__
+      count += 1
+      done = True
+      break       # one at a time: a rename shared by two classes changes what the other class is missing
+    if not done:
+      break
+  return count
+
+
 def lifted_candidates(tree, modname, table=None):
   """Names of new module-level functions that look like a reference closure that is missing now."""
   table = table if table is not None else _load_table()
@@ -3845,6 +3901,7 @@ def normalize(tree, modname):
     ast.fix_missing_locations(tree)
     return 0, b
   a = inline_module_constants(tree, modname)
+  a += restore_attribute_names(tree, modname)
   a += call_spelling(tree, modname)
   a += restore_function_names(tree, modname)
   a += collect_generators(tree, modname)
